@@ -4,6 +4,9 @@
 // `le == true` is pilota's little-endian variant (same layout, integers little-endian,
 // version word 0x8888....).
 // ---------------------------------------------------------------------------------------------
+pub mod binspec {
+use super::*;
+use vstd::prelude::*;
 verus! {
 
 /// type codes of thrift-binary-protocol.md ("Struct encoding": field-type) + uuid (16)
@@ -68,6 +71,18 @@ pub open spec fn bin_i64(le: bool, v: i64) -> Seq<u8> { w64(le, tc(v as int, 64)
 pub open spec fn bin_double(le: bool, d: f64) -> Seq<u8> { w64(le, f64_bits(d) as nat) }
 /// binary / string: i32 byte length, then the bytes
 pub open spec fn bin_bytes(le: bool, b: Seq<u8>) -> Seq<u8> { w32(le, b.len()) + b }
+/// value of the first four bytes of s as an unsigned 32-bit integer
+#[verifier::opaque]
+pub open spec fn rd32(le: bool, s: Seq<u8>) -> nat
+    recommends s.len() >= 4
+{
+    if le { (s[0] as nat) + (s[1] as nat) * 0x100 + (s[2] as nat) * 0x1_0000 + (s[3] as nat) * 0x100_0000 }
+    else  { (s[3] as nat) + (s[2] as nat) * 0x100 + (s[1] as nat) * 0x1_0000 + (s[0] as nat) * 0x100_0000 }
+}
+/// `s` starts with a complete length-prefixed byte string: 4-byte non-negative length, then that many bytes
+pub open spec fn bin_bytes_ok(le: bool, s: Seq<u8>) -> bool {
+    s.len() >= 4 && rd32(le, s) < 0x8000_0000 && s.len() >= 4 + rd32(le, s)
+}
 /// `s` starts with a complete length-prefixed byte string (non-negative i32 length, then that many bytes)
 pub open spec fn bin_has_bytes(le: bool, s: Seq<u8>) -> bool {
     exists|b: Seq<u8>, rest: Seq<u8>| b.len() < 0x8000_0000 && s == #[trigger] (bin_bytes(le, b) + rest)
@@ -82,6 +97,21 @@ pub open spec fn bin_message_begin(le: bool, name: Seq<u8>, mt: TMessageType, se
     w32(le, bin_version(le) + mtype_u8(mt) as nat) + bin_bytes(le, name) + bin_i32(le, seq)
 }
 
+/// what a reader must accept as a strict message header (thrift-binary-protocol.md: the low byte
+/// of the first word carries the type in its low bits, the byte above it is unused):
+/// word u with the version half-word, type = u mod 16, then name and sequence id
+pub open spec fn bin_msg_accepts(le: bool, s: Seq<u8>, name: Seq<u8>, mt: TMessageType, seq: i32, rest: Seq<u8>) -> bool {
+    let u = rd32(le, s);
+    s.len() >= 4 && u / 0x1_0000 == bin_version(le) / 0x1_0000 && u % 16 == mtype_u8(mt) as nat
+        && s == w32(le, u) + bin_bytes(le, name) + bin_i32(le, seq) + rest
+}
+/// the input does start with a complete, valid strict message header
+pub open spec fn bin_msg_ok(le: bool, s: Seq<u8>) -> bool {
+    let u = rd32(le, s);
+    s.len() >= 4 && u / 0x1_0000 == bin_version(le) / 0x1_0000 && 1 <= u % 16 <= 4
+        && bin_bytes_ok(le, s.skip(4)) && s.len() >= 4 + 4 + rd32(le, s.skip(4)) + 4
+}
+
 // ------------------------------------------------------------------------------------------
 // injectivity / prefix lemmas used by the round-trip theorems (pure mathematics)
 pub proof fn lemma_byte_at_bound(n: nat, i: nat)
@@ -89,29 +119,39 @@ pub proof fn lemma_byte_at_bound(n: nat, i: nat)
         else if i == 2 { (n / 0x1_0000) % 256 } else if i == 3 { (n / 0x100_0000) % 256 }
         else if i == 4 { (n / 0x1_0000_0000) % 256 } else if i == 5 { (n / 0x100_0000_0000) % 256 }
         else if i == 6 { (n / 0x1_0000_0000_0000) % 256 } else { (n / 0x100_0000_0000_0000) % 256 })
-{ }
+{ reveal(byte_at); }
 
 pub proof fn lemma_w16_inj(le: bool, a: nat, b: nat)
     requires a < 0x1_0000, b < 0x1_0000, w16(le, a) == w16(le, b)
     ensures a == b
 {
-    let x = w16(le, a); let y = w16(le, b);
-    assert(x[0] == y[0] && x[1] == y[1]);
-    lemma_byte_at_bound(a, 0); lemma_byte_at_bound(a, 1); lemma_byte_at_bound(b, 0); lemma_byte_at_bound(b, 1);
+    reveal(byte_at);
+    let x = a as u64; let y = b as u64;
+    let p = w16(le, a); let q = w16(le, b);
+    assert(p[0] == q[0] && p[1] == q[1]);
+    assert(byte_at(a, 0) == byte_at(b, 0) && byte_at(a, 1) == byte_at(b, 1));
+    assert(x % 256 == y % 256 && (x / 0x100) % 256 == (y / 0x100) % 256);
+    assert((x < 0x1_0000 && y < 0x1_0000 && x % 256 == y % 256 && (x / 0x100) % 256 == (y / 0x100) % 256) ==> x == y) by (bit_vector);
 }
 pub proof fn lemma_w32_inj(le: bool, a: nat, b: nat)
     requires a < 0x1_0000_0000, b < 0x1_0000_0000, w32(le, a) == w32(le, b)
     ensures a == b
 {
-    let x = w32(le, a); let y = w32(le, b);
-    assert(x[0] == y[0] && x[1] == y[1] && x[2] == y[2] && x[3] == y[3]);
-    lemma_byte_at_bound(a, 0); lemma_byte_at_bound(a, 1); lemma_byte_at_bound(a, 2); lemma_byte_at_bound(a, 3);
-    lemma_byte_at_bound(b, 0); lemma_byte_at_bound(b, 1); lemma_byte_at_bound(b, 2); lemma_byte_at_bound(b, 3);
+    reveal(byte_at);
+    let x = a as u64; let y = b as u64;
+    let p = w32(le, a); let q = w32(le, b);
+    assert(p[0] == q[0] && p[1] == q[1] && p[2] == q[2] && p[3] == q[3]);
+    assert(byte_at(a, 0) == byte_at(b, 0) && byte_at(a, 1) == byte_at(b, 1) && byte_at(a, 2) == byte_at(b, 2) && byte_at(a, 3) == byte_at(b, 3));
+    assert(x % 256 == y % 256 && (x / 0x100) % 256 == (y / 0x100) % 256 && (x / 0x1_0000) % 256 == (y / 0x1_0000) % 256
+        && (x / 0x100_0000) % 256 == (y / 0x100_0000) % 256);
+    assert((x < 0x1_0000_0000 && y < 0x1_0000_0000 && x % 256 == y % 256 && (x / 0x100) % 256 == (y / 0x100) % 256
+        && (x / 0x1_0000) % 256 == (y / 0x1_0000) % 256 && (x / 0x100_0000) % 256 == (y / 0x100_0000) % 256) ==> x == y) by (bit_vector);
 }
 pub proof fn lemma_w64_inj(le: bool, a: nat, b: nat)
     requires a < 0x1_0000_0000_0000_0000, b < 0x1_0000_0000_0000_0000, w64(le, a) == w64(le, b)
     ensures a == b
 {
+    reveal(byte_at);
     let x = a as u64; let y = b as u64;
     let p = w64(le, a); let q = w64(le, b);
     assert(p[0] == q[0] && p[1] == q[1] && p[2] == q[2] && p[3] == q[3] && p[4] == q[4] && p[5] == q[5] && p[6] == q[6] && p[7] == q[7]);
@@ -200,4 +240,31 @@ pub proof fn thm_rt_field_begin(le: bool, t: TType, id: i16, rest: Seq<u8>, t2: 
     lemma_w16_inj(le, tc(id as int, 16), tc(id2 as int, 16));
 }
 
+
+/// reading back the length word of a length-prefixed value
+pub broadcast proof fn lemma_rd32_w32(le: bool, n: nat, rest: Seq<u8>)
+    requires n < 0x1_0000_0000
+    ensures #[trigger] rd32(le, w32(le, n) + rest) == n
+{
+    reveal(byte_at); reveal(rd32);
+    let s = w32(le, n) + rest;
+    let x = n as u64;
+    assert(s[0] == w32(le, n)[0] && s[1] == w32(le, n)[1] && s[2] == w32(le, n)[2] && s[3] == w32(le, n)[3]);
+    assert(x < 0x1_0000_0000 ==> (x % 256) + ((x / 0x100) % 256) * 0x100 + ((x / 0x1_0000) % 256) * 0x1_0000 + ((x / 0x100_0000) % 256) * 0x100_0000 == x) by (bit_vector);
+}
+pub broadcast proof fn lemma_rd32_be32(n: nat, rest: Seq<u8>)
+    requires n < 0x1_0000_0000
+    ensures #[trigger] rd32(false, be32(n) + rest) == n
+{ lemma_rd32_w32(false, n, rest); }
+pub broadcast proof fn lemma_rd32_le32(n: nat, rest: Seq<u8>)
+    requires n < 0x1_0000_0000
+    ensures #[trigger] rd32(true, le32(n) + rest) == n
+{ lemma_rd32_w32(true, n, rest); }
+pub broadcast proof fn lemma_rd32_w32_2(le: bool, n: nat, a: Seq<u8>, b: Seq<u8>)
+    requires n < 0x1_0000_0000
+    ensures #[trigger] rd32(le, (w32(le, n) + a) + b) == n
+{ assert((w32(le, n) + a) + b =~= w32(le, n) + (a + b)); lemma_rd32_w32(le, n, a + b); }
+pub broadcast group group_bin { lemma_rd32_w32, lemma_rd32_be32, lemma_rd32_le32, lemma_rd32_w32_2 }
 } // verus!
+}
+pub use binspec::*;
